@@ -49,7 +49,7 @@ def rename_cases(mos, p, picks, wd):
             rec["status"], rec["panic"] = r["status"], r["panic"]
             continue
         changes = (r["result"] or {}).get("changes") or {}
-        rec["edits"] = [{"oid": D.oid_at(p["occ"], root, u, L.rng4(e["range"])), "text": e["newText"]} for u, eds in changes.items() for e in eds]
+        rec["edits"] = [{"oid": o_, "text": e["newText"]} for u, eds in changes.items() for e in eds for o_ in D.oids_at(p["occ"], root, u, L.rng4(e["range"]))]
         rec["raw"] = L.canon(r["result"], root)
         edited = dict(p["texts"])
         for u, eds in changes.items():
